@@ -64,6 +64,21 @@ def configs(tier):
                      pool=dict(timeout=1.5), oracle='c07', threads=False,
                      horizon=120.0), 1 if not T else 2,
                 4000 if not T else 60000))
+    # a worker replaced while the pool runs, then a job done by the
+    # replacement, then the drain (the replacement's bookkeeping must be as
+    # good as an original worker's)
+    out.append((dict(name='1proc/replaced-worker', procs=1, jobs=J2,
+                     script=['submit:0', 'wait:0', 'killworker:0', 'rounds:1',
+                             'submit:1', 'wait:1', 'close', 'join'],
+                     pool={}, oracle='c07'), 1 if not T else 2,
+                4000 if not T else 60000))
+    # close() landing inside a supervision round that has several workers
+    # to start
+    out.append((dict(name='1proc/grow2-vs-close', procs=1, jobs=J1,
+                     script=['submit:0', 'grow:2', 'sleep:0.85', 'close',
+                             'join'],
+                     pool={}, oracle='c07', timer_deviation=True),
+                2 if not T else 3, 30000 if not T else 150000))
     if T:
         out.append((dict(name='1proc/1job/timers', procs=1, jobs=J1,
                          script=S(1) + ['close', 'join'], pool={},
@@ -77,13 +92,14 @@ def main(tier, seed, only=None):
     cfgs = [c for c in configs(tier) if not only or c[0]['name'] in only]
     order = list(range(len(cfgs)))
     random.Random(seed).shuffle(order)
-    res = par.pmap('harness.l3:explore_cfg', [cfgs[i] for i in order])
+    from harness import l3
+    res = l3.explore_split([cfgs[i] for i in order], want=12)
     for i, d in zip(order, res):
         cfg, b, cap = cfgs[i]
         found = d.pop('found')
         st = explore.Stats()
         st.merge(d)
-        rep.stats(cfg['name'], st, delay_bound=b)
+        rep.stats(cfg['name'], st, delay_bound=b, subtrees=d.get('subtrees'))
         for msg, ch, sig, log in found:
             rep.violation(msg + '\nconfig=%s log tail=%r' % (cfg['name'], log[-6:]),
                           dict(harness='l3', config=cfg, choices=ch),
